@@ -120,8 +120,15 @@ def r3_lookup(run, F):
         if p.endswith("common::Identifier") and node.get("k") == "Struct":
             fs = {f["name"]: f["e"] for f in node["fields"]}
             e = fs.get("resolution_id")
-            if e is not None and hirq.unwrap_trivial(e).get("k") == "Field" and hirq.local_name_of(hirq.unwrap_trivial(hirq.unwrap_trivial(e)["e"])) == "previous_identifier":
-                ok = True
+            # by role: the resolution_id field of the identifier that the search over the label stack found (a binding that
+            # derives from `label_stack`), not a fresh or the goto's own id
+            if e is not None and hirq.unwrap_trivial(e).get("k") == "Field" and hirq.unwrap_trivial(e).get("name") == "resolution_id":
+                from rules import origins as _or
+                oo = _or.origins(ul["hir"], hirq.unwrap_trivial(e)["e"], ul.get("params", ()))
+                base_ = hirq.unwrap_trivial(hirq.unwrap_trivial(e)["e"])
+                pl = [q.get("lid") for q in ul.get("params", [])]
+                if ("field", "label_stack") in oo and any(k[0] == "call" and str(k[1]).endswith("::find") for k in oo) and base_.get("lid") not in pl:
+                    ok = True
     run.ob("R3-RESOLUTION-ID", "use_label", ok, F.where(ul), "a goto takes the resolution id of the label declaration it found")
     cons = [hirq.short(p) for p, _ in hirq.constructs(dl["hir"])]
     run.ob("R3-DUPLICATE-LABEL", "declare_label", "Error::DuplicateDeclarationLabel" in cons, F.where(dl), "clash must yield DuplicateDeclarationLabel")
